@@ -9,6 +9,7 @@ import Proofs.ExtractPkgRef
 import Proofs.ExtractAcyclic
 import Proofs.ExtractShapeTie
 import Proofs.ExtractShapeAssoc
+import Proofs.ExtractShapeScope
 
 /-!
   C14 — Component extraction mirrors the BridgePoint class model.
@@ -1352,5 +1353,82 @@ example : iMkAssociation defs tieD 7 { simp := true } = .error .attributeError :
 example : iMkAssociation defs tieD 7 (tieLinked true false false true) =
     expected 7 (mkAssociation tieD (tieLinked true false false true)) :=
   (linked_association_as_in_source_partial tieD 7 _ _ _ _ (by decide) rfl rfl rfl (by decide)).symm
+
+end PyxProps.C14
+
+/-! ==========================================================================================================
+  SOURCE TIE, round 3 (builder extract-shape) — appended section.  Proofs/ExtractShapeScope.lean: the population `scopeWorld`
+  (PE_PE rows by the `Parent` they denote, EP_PKG / C_C rows = containers, R8000 / R8003 / R8001, R1402 'is referenced by' over
+  the EP_PKGREF rows) and `is_global` of the generated IR against `globalFuel` / `isGlobal`.  Partial correctness: WHENEVER the
+  interpretation returns, it returns the model's value (the reading Props/C20's `oracle` gives to ooaofooa.is_global).
+  For `is_contained_in` the R1402 loop is tied (`contained_reference_loop_as_in_source`); the whole-function equality with
+  `containedFuel` is NOT yet proved (the C20 oracle for is_contained_in still rests on K).
+  ========================================================================================================== -/
+namespace PyxProps.C14
+open Pyx.Extract Pyx.XShape Pyx.Gen.ExtractShape
+
+/-- `is_global(x)` interpreted from the IR generated from the source, for x a PE_PE, an EP_PKG or a C_C row of ANY container list:
+    whenever the call returns at recursion depth f, it returns `globalFuel cs f` of the Parent x stands for and defines nothing
+    (a C_C on the way up: False; no package / a Package_ID naming no EP_PKG row: True; else the package's own PE_PE, recursively;
+    package references are not followed); on `TreeOk` and with f above the number of containers that is `isGlobal` itself -/
+theorem is_global_as_in_source (cs : List Container) (rf : List PkgRef) (f : Nat) (x : SI) (Lc : Loc SI) (C : Calls SI)
+    (v : Val SI) (C' : Calls SI) (h : callAt (scopeWorld cs rf) defs f "is_global" [.inst (some x)] Lc C = .ok (v, C'))
+    (p : Parent) (hp : parentOf (some x) = some p) :
+    (v = .bool (globalFuel cs f p) ∧ C' = C) ∧
+    (TreeOk cs rf → cs.length < f → v = .bool (isGlobal cs p)) := by
+  have h1 := isGlobal_sound cs rf f x Lc C v C' h p hp
+  refine ⟨h1, fun tree hf => ?_⟩
+  rw [h1.1]
+  congr 1
+  obtain ⟨depth, hdec, _, hb⟩ := tree.ex
+  have h2 := global_fuel depth hdec f p (by have := hb p; omega)
+  have h3 := global_iff tree p
+  cases hg : globalFuel cs f p <;> cases hi : isGlobal cs p <;> simp_all
+
+/-- what the state a loop ends in says about a disjunction `b`: `return True` = b, fallen through = not b -/
+def loopSays (s : Sig SI) (b : Bool) : Prop :=
+  match s with
+  | .ret v => v = .bool true ∧ b = true
+  | .next => b = false
+  | .cont => False
+
+/-- a Boolean result without `define_*` calls -/
+def boolRun : Except Err (Val SI × Calls SI) → Option Bool
+  | .ok (.bool b, []) => some b
+  | _ => none
+
+/-- the loop of `is_contained_in` over the packages REFERRING to a package (R1402 'is referenced by'), for every list of referring
+    packages: given that the recursive calls return the model's value at depth f, the loop returns True exactly when
+    `containedFuel … f` holds for the parent of one of them (in row order, first hit returns), defines nothing and keeps `root`;
+    `any_referrers`: that disjunction IS the `rf.any …` clause of `containedFuel` -/
+theorem contained_reference_loop_as_in_source (cs : List Container) (rf : List PkgRef) (root : Nat) (kr : Container)
+    (cf : CallF SI) (f fuel i : Nat) (hs : SoundF cs rf root kr cf f) (L : Loc SI) (C : Calls SI) (L1 : Loc SI) (C1 : Calls SI)
+    (s : Sig SI) (hr : L "root" = .inst (some (SI.comp kr)))
+    (h : forLoop (fun x L' C' => iStmts (scopeWorld cs rf) cf fuel
+            (match is_contained_in.body.drop 5 with
+             | [.forNav _ _ body, _] => body
+             | _ => [])
+            (L'.set "ep_pkg" (.inst (some x))) C')
+          ((referrers cs rf i).map SI.pkg) L C = .ok (L1, C1, s)) :
+    C1 = C ∧ loopSays s (rf.any (fun r => r.referred == i &&
+      match findContainer cs false r.referring with
+      | some kq => containedFuel cs rf root f kq.parent
+      | none => false)) := by
+  have h1 := refLoop_sound cs rf root kr cf f fuel hs (referrers cs rf i) L C L1 C1 s hr h
+  rw [any_referrers] at h1
+  exact ⟨h1.1, h1.2.2⟩
+
+/-- applied: a package inside a component is not global, at depth 3 of a two-container tree -/
+example : boolRun (callAt (scopeWorld [⟨true, 1, "C", .none⟩, ⟨false, 2, "P", .comp 1⟩] []) defs 3 "is_global"
+    [.inst (some (SI.pe (.pkg 2)))] Loc.empty []) = some false := by decide +kernel
+example : isGlobal [⟨true, 1, "C", .none⟩, ⟨false, 2, "P", .comp 1⟩] (.pkg 2) = false := by decide +kernel
+
+/-- is_contained_in interpreted on a concrete tree with a package reference (package 3, global, is referred to by package 2 inside
+    component 1): contained through the reference, as `containedIn` says (a kernel-evaluated instance, not the general theorem) -/
+example : boolRun (callAt (scopeWorld [⟨true, 1, "C", .none⟩, ⟨false, 2, "P", .comp 1⟩, ⟨false, 3, "Q", .none⟩] [⟨2, 3⟩]) defs 6
+      "is_contained_in" [.inst (some (SI.pe (.pkg 3))), .inst (some (SI.comp ⟨true, 1, "C", .none⟩))] Loc.empty []) =
+      some true ∧
+    containedIn [⟨true, 1, "C", .none⟩, ⟨false, 2, "P", .comp 1⟩, ⟨false, 3, "Q", .none⟩] [⟨2, 3⟩] 1 (.pkg 3) = true := by
+  decide +kernel
 
 end PyxProps.C14
